@@ -46,6 +46,8 @@ def run_case(desc):
     mx = build.marr(U, xd)
     snap = build.snapshot(x)
     eq = build.eq_for(mode)
+    if mode == "int":
+        eq = model.make_eq_float(1e-12)
     if mode == "float":
         scale = sum(abs(v) for v in mx.data.values())
         feq = model.make_eq_float(1e-9)
@@ -169,7 +171,7 @@ def cases(draw, mode, max_dims=4, max_len=3):
     if mode == "float" and op == "shares":
         elems = st.one_of(st.sampled_from([0.0, 0.0, 1.0, 2.0]), st.floats(1e-6, 100, allow_nan=False), st.floats(-100, -1e-6, allow_nan=False))
     min_x = 1 if (obj or op in ("cumsum", "shares")) else 0
-    x = draw(gen.arrays(U, modes=(mode,), tag="x", min_dims=min_x, elems=elems))
+    x = draw(gen.arrays(U, modes=(mode,), tag="x", min_dims=min_x, elems=elems, allow_int=True))
     xl = x["letters"]
     bad = None
     if draw(st.integers(0, 7)) == 0:
